@@ -1581,18 +1581,16 @@ pub mod gen {
                 let host = if host.starts_with("ns1..") || host.contains("..") { format!("ns{}.{zn}", h + 1) } else { host };
                 hosts.push(host);
             }
-            let glue = r.chance(2, 3);
+            let all_in_zone = hosts.iter().all(|h| h.ends_with(&format!(".{zn}")));
+            let glue = if all_in_zone { r.chance(11, 12) } else { r.chance(1, 2) };
             let hs: Vec<&str> = hosts.iter().map(|s| s.as_str()).collect();
             let zi = w.zone(&zn, g, &hs, glue);
             zone_names.push(zn.clone());
             if r.chance(1, 3) {
                 hostile.push(w.zones[zi].group);
             }
-            match r.below(8) {
-                0 => {
-                    w.lame.insert(g, r.below(3) as u8);
-                }
-                _ => {}
+            if r.chance(1, 14) {
+                w.lame.insert(g, r.below(3) as u8);
             }
         }
         // host data
@@ -1678,8 +1676,8 @@ pub mod gen {
                 qs.push((n, t));
             }
         }
-        let rl = *r.pick(&[24u8, 24, 24, 3, 8, 1, 0, 255]);
-        let nl = *r.pick(&[24u8, 24, 24, 2, 4, 6, 1, 0, 16]);
+        let rl = if r.chance(3, 4) { 24 } else { *r.pick(&[0u8, 1, 2, 3, 5, 8, 255]) };
+        let nl = if r.chance(3, 4) { 24 } else { *r.pick(&[0u8, 1, 2, 3, 4, 5, 6, 8, 16, 255]) };
         let roots = w.group_ips[0].clone();
         let mut c = w.case(roots, qs, rl, nl);
         // filters
